@@ -143,7 +143,10 @@ def replay(lib, ob, cex):
         if nat['nsteps'] != ob['m'] + 1: bad.append('nsteps=%d' % nat['nsteps'])
         return bool(bad), 'native TaprootCommitmentEnv: mismatching BIP341 values at %s (state %s)' % (bad, nat['state'])
     okn = nat['steps'] and nat['steps'][-1][0] == 1
-    bad = (len(nat['steps']) != ob['m'] + 1) or (okn and (nat['leaf'] == 'unset' or bytes(nat['leaf']) != ks[0]))
+    m = ob['m']; pre = [[1, i + 1, 1] for i in range(m)]
+    # the shape of the session either way: m branch steps, then the tweak step - success ends the commitment phase, failure must leave it in place (Failed is sticky)
+    shape_ok = [list(s) for s in nat['steps']] in (pre + [[1, m + 1, 0]], pre + [[0, m, 1]])
+    bad = (not shape_ok) or (okn and (nat['leaf'] == 'unset' or bytes(nat['leaf']) != ks[0]))
     return bool(bad), 'native session commitment phase: %s' % sesslib.short(nat)
 
 def validate(E, lib):
